@@ -89,6 +89,7 @@ def shards(tier):
     for n in range(1, (6 if tier == 'thorough' else 4) + 1):
         for pre in itertools.product('KRPDA', repeat=min(n, 2)):
             out.append({'kind': 'all', 'n': n, 'pre': ''.join(pre), 'k': 0})
+    out.append({'kind': 'dense', 'k': 3})
     for seq in proteins(tier):
         for sh in space.dev_shards(axes_for(len(seq)), 3 if len(seq) <= 5 or tier == 'thorough' else 2):
             sh['seq'] = seq
@@ -97,6 +98,16 @@ def shards(tier):
 
 
 def gen(shard, tier):
+    if shard.get('kind') == 'dense':
+        # densely modified longer proteins: EVERY residue tagged by its own position (5..13 modified residues), alone and
+        # with termini, a label and a rule
+        for seq in [q for q in proteins(tier) if len(q) >= 5]:
+            yield {'seq': seq, 'slots': {'resall': True}, 'mcs': [0, 1, 2]}, 3, True
+            yield {'seq': seq, 'slots': {'resall': True, 'nterm': [['Acetyl', 1]], 'cterm': [['Amidated', 1]],
+                                         'isotope': ['13C']}, 'mcs': [0, 1]}, 3, True
+            yield {'seq': seq, 'slots': {'resall': True, 'static': [{'mods': [['10', 1]], 'targets': ['N-Term']}],
+                                         'labile': [['Glycan:Hex', 1]]}, 'mcs': [0, 1]}, 3, True
+        return
     if shard.get('kind') == 'all':
         # full product: every protein of length n over {K,R,P,D,A}, unmodified and with EVERY residue tagged by its own
         # position plus both termini modified
